@@ -1,6 +1,7 @@
 import GoPlugin.Props.C07
 import GoPlugin.Props.IdAlloc
 import GoPlugin.Generated.Facts
+import GoPlugin.Props.Hygiene
 /- C07 at the facts extracted from the current source. -/
 namespace GoPlugin.Instance.C07
 open GoPlugin GrpcBroker Props.C07
@@ -33,5 +34,8 @@ theorem idalloc_good : Facts.idAllocGrpc.Good := by decide
 /-- `GRPCBroker.NextId` never hands the same ID to two callers, however their calls interleave -/
 theorem holds_ids_distinct (es : List IdAlloc.Ev) (s : IdAlloc.State) (hr : IdAlloc.runFrom Facts.idAllocGrpc IdAlloc.init es = some s) :
     s.issued.Nodup := (Props.IdAlloc.ids_distinct _ idalloc_good es s hr).1
+
+theorem holds_host_broker_uses_client_dir (clientDir : Option String) : Hygiene.hostBrokerDir Facts.hygiene clientDir = clientDir :=
+  Props.Hygiene.host_broker_uses_client_dir _ (by decide) clientDir
 
 end GoPlugin.Instance.C07
